@@ -188,6 +188,10 @@ def seek (C : DS σ) (H : Nat) (t : Nat) (s : State σ) : State σ :=
 /-- mirrors: src/query/union/buffered_union.rs::is_in_horizon (`wrapping_sub`) -/
 def isInHorizon (H : Nat) (s : State σ) (t : Nat) : Bool := decide (s.ws ≤ t) && decide (t - s.ws < H)
 
+/-- the guard of the buffered branch of `seek_danger`, regenerated from the source -/
+def dangerBuffered (H : Nat) (s : State σ) (t : Nat) : Bool :=
+  (decide (Gen.UNION_SEEK_DANGER_BELOW_WINDOW_BUFFERED = 1) && decide (t < s.ws)) || isInHorizon H s t
+
 /-- the `for docset in self.docsets.iter_mut()` of `seek_danger` (breaks at the first hit) -/
 def dangerChildren (C : DS σ) (t : Nat) : List σ → Nat → (Bool × Nat) × List σ
   | [], m => ((false, m), [])
@@ -199,7 +203,7 @@ def dangerChildren (C : DS σ) (t : Nat) : List σ → Nat → (Bool × Nat) × 
 /-- mirrors: src/query/union/buffered_union.rs::seek_danger -/
 def seekDanger (C : DS σ) (H : Nat) (t : Nat) (s : State σ) : SD × State σ :=
   if t ≥ TERMINATED then (.lower TERMINATED, s)
-  else if isInHorizon H s t then
+  else if dangerBuffered H s t then
     let s' := seek C H t s
     if s'.doc = t then (.found, s') else (.lower s'.doc, s')
   else
